@@ -143,6 +143,7 @@ func c19objects() []c19obj {
 		{name: "packetio.Buffer", setup: func() []c19op {
 			b := packetio.NewBuffer()
 			_, _ = b.Write([]byte("seed"))
+			_, _ = b.Write([]byte("seed2")) // a Read leaves something behind
 			return []c19op{
 				{"Write", func() { _, _ = b.Write([]byte("abc")) }},
 				{"Read", func() { _, _ = b.Read(make([]byte, 8)) }},
